@@ -189,14 +189,41 @@ Lemma total_cost_spec M a :
   Forall (fun x => x = (-1)%Z \/ (0 <= x < Z.of_nat (n_cols M))%Z) a -> total_cost M a = cost_of M a.
 Proof. intros H. unfold total_cost, cost_of. rewrite total_cost_from by exact H. lia. Qed.
 
+(* ---------- matrices without columns: every row stays unassigned *)
+Lemma assigned_repeat k : assigned (repeat (-1)%Z k) = [].
+Proof. induction k as [|k IH]; [reflexivity | exact IH]. Qed.
+
+Lemma cost_from_repeat M k : forall i, cost_from M i (repeat (-1)%Z k) = 0%Z.
+Proof. induction k as [|k IH]; intros i; simpl; [reflexivity | rewrite IH; reflexivity]. Qed.
+
+Lemma zero_cols_matching M : n_cols M = 0 -> matching_spec M (repeat (-1)%Z (n_rows M)).
+Proof.
+  intros H. constructor.
+  - apply repeat_length.
+  - apply Forall_forall. intros x Hx. apply repeat_spec in Hx. left. exact Hx.
+  - rewrite assigned_repeat. constructor.
+  - rewrite assigned_repeat, H, Nat.min_0_r. reflexivity.
+Qed.
+
+Lemma zero_cols_cost M b : n_cols M = 0 -> matching_spec M b -> cost_of M b = 0%Z.
+Proof.
+  intros H [_ Hr _ _]. rewrite H in Hr. unfold cost_of. generalize 0 as i.
+  induction b as [|x t IH]; intros i; simpl; [reflexivity|].
+  inversion Hr as [|x' t' Hx Ht]; subst.
+  assert (x = (-1)%Z) by (simpl in Hx; lia). subst x. simpl. apply IH. exact Ht.
+Qed.
+
 (* ---------- solve_hungarian: always returns, the result is a matching, the objective is its cost *)
-Lemma solve_shape M minimize : has_cols M = true ->
+Lemma solve_shape M minimize :
   exists a, solve M minimize = Some (a, cost_of M a) /\ matching_spec M a.
 Proof.
-  intros Hc. destruct M as [|[|x r] rest]; [| discriminate |].
+  destruct M as [|[|x r] rest].
   - exists []. split; [reflexivity|]. constructor; simpl; constructor.
+  - exists (repeat (-1)%Z (n_rows ([] :: rest))). split.
+    + unfold solve, solve_gen, cost_of. rewrite cost_from_repeat. reflexivity.
+    + apply zero_cols_matching. reflexivity.
   - set (M := (x :: r) :: rest) in *.
-    unfold solve. fold M.
+    unfold solve, solve_gen. fold M.
     destruct (core_ok (padded M minimize) (Nat.max (n_rows M) (n_cols M))) as ([[[u v] p] way] & E & [Hh _]).
     rewrite E.
     destruct (extract_matching _ p (n_rows M) (n_cols M) eq_refl Hh) as (H1 & H2 & H3 & H4).
